@@ -41,6 +41,7 @@ type sOpts struct {
 	Ident  bool   `json:"ident"`
 	V1     bool   `json:"v1"`
 	Maxcid int    `json:"maxcid"`
+	Maxsec int    `json:"maxsec"` // MaxAllowedSectionSize (0: default)
 	Dpad   int    `json:"dpad"`
 	Ipad   int    `json:"ipad"`
 	Codec  string `json:"codec"`
@@ -188,6 +189,9 @@ func (o sOpts) carOpts() []carv2.Option {
 	}
 	if o.Zero {
 		opts = append(opts, carv2.ZeroLengthSectionAsEOF(true))
+	}
+	if o.Maxsec > 0 {
+		opts = append(opts, carv2.MaxAllowedSectionSize(uint64(o.Maxsec)))
 	}
 	return opts
 }
@@ -565,6 +569,9 @@ func checkObs(g *sGraph, n *sNode, st realStore, kind string) string {
 		ids = append(ids, id)
 	}
 	sort.Strings(ids)
+	if n.S.O.Maxsec > 0 {
+		ids = nil // lookups are subject to the reader-side section limit, which the specification does not model
+	}
 	for _, id := range ids {
 		o := n.Obs[id]
 		c := alphaByID[id].Cid
